@@ -169,6 +169,7 @@ func Worker17(cfg Config) *evid.Stats {
 			bases = append(bases, fromEntry(corpus.DrawSingle(r, lib.tpls, ti, r.Intn(64))))
 		}
 	}
+	bases = append(bases, fromEntry(corpus.ConvImageEntry()))
 	for _, s := range lib.samples {
 		if len(s.Bytes) < 100000 {
 			bases = append(bases, drawnModel{spec: ModelSpec{Name: s.Name, Bytes: s.Bytes}, inputSets: s.InputSets, nNodes: 3})
@@ -186,9 +187,15 @@ func Worker17(cfg Config) *evid.Stats {
 		stride := int64(1)
 		if cfg.Tier != "thorough" && ny > 48 {
 			stride = ny / 48
+			if ny > 1_000_000 {
+				stride = ny / 16 // image-sized models: a Run costs seconds, sixteen parking points spread over it
+			}
 		}
 		if cfg.Tier == "thorough" && ny > 4000 {
 			stride = ny / 4000
+			if ny > 1_000_000 {
+				stride = ny / 96
+			}
 		}
 		for d := int64(0); d < ny; d += stride {
 			mine := idx%cfg.NW == cfg.W
